@@ -40,7 +40,6 @@ type MutableTree struct {
 	unsavedFastNodeRemovals  *sync.Map      // map[string]interface{} FastNodes that have not yet been removed from disk
 	ndb                      *nodeDB
 	skipFastStorageUpgrade   bool // If true, the tree will work like no fast storage and always not upgrade fast storage
-	initialVersionSet        bool
 
 	mtx sync.Mutex
 }
@@ -63,7 +62,6 @@ func NewMutableTree(db corestore.KVStoreWithBatch, cacheSize int, skipFastStorag
 		unsavedFastNodeRemovals:  &sync.Map{},
 		ndb:                      ndb,
 		skipFastStorageUpgrade:   skipFastStorageUpgrade,
-		initialVersionSet:        opts.initialVersionSet,
 	}
 }
 
@@ -155,11 +153,7 @@ func (tree *MutableTree) WorkingHash() []byte {
 }
 
 func (tree *MutableTree) WorkingVersion() int64 {
-	version := tree.version + 1
-	if version == 1 && tree.initialVersionSet {
-		version = int64(tree.ndb.opts.InitialVersion) // nolint:gosec // the integer version is always positive
-	}
-	return version
+	return tree.ImmutableTree.nextVersion()
 }
 
 // String returns a string representation of the tree.
@@ -717,7 +711,7 @@ func (tree *MutableTree) UnsetCommitting() {
 // the tree. Returns the hash and new version number.
 func (tree *MutableTree) SaveVersion() ([]byte, int64, error) {
 	version := tree.WorkingVersion()
-	tree.initialVersionSet = false
+	tree.ndb.opts.initialVersionSet = false
 
 	if tree.VersionExists(version) {
 		// If the version already exists, return an error as we're attempting to overwrite.
@@ -882,7 +876,7 @@ func (tree *MutableTree) saveFastNodeRemovals() error {
 // and is otherwise ignored.
 func (tree *MutableTree) SetInitialVersion(version uint64) {
 	tree.ndb.opts.InitialVersion = version
-	tree.initialVersionSet = true
+	tree.ndb.opts.initialVersionSet = true
 }
 
 // DeleteVersionsTo removes versions upto the given version from the MutableTree.
